@@ -447,6 +447,15 @@ func readIni(contents io.Reader, filename string) (*ini, error) {
 
 		name := strings.TrimSpace(keyval[0])
 		value := strings.TrimSpace(keyval[1])
+
+		if len(name) == 0 {
+			return nil, &IniError{
+				Message:    fmt.Sprintf("malformed key=value (%s)", line),
+				File:       filename,
+				LineNumber: lineno,
+			}
+		}
+
 		quoted := false
 
 		if len(value) != 0 && value[0] == '"' {
